@@ -1,6 +1,7 @@
 package sym
 
 import (
+	"regexp"
 	"fmt"
 	"go/token"
 	"go/types"
@@ -222,6 +223,7 @@ func init() {
 		}
 		return makeReflectType(itf.t)
 	}
+	stdIntrinsics["internal/reflectlite.TypeOf"] = stdIntrinsics["reflect.TypeOf"]
 	stdIntrinsics["reflect.DeepEqual"] = func(fr *frame, args []value) value {
 		x, y := args[0].(iface), args[1].(iface)
 		if x.t == nil || y.t == nil {
@@ -231,6 +233,86 @@ func init() {
 			return false
 		}
 		return fr.i.deepEqual(fr, x.t, x.v, y.v, map[dePair]bool{})
+	}
+}
+
+// otel attribute slices are stored as arrays built through reflection; build them directly.
+func init() {
+	mk := func(elem types.Type) intrinsic {
+		return func(fr *frame, args []value) value {
+			src := args[0].([]value)
+			a := make(array, len(src))
+			for k := range src {
+				a[k] = copyVal(src[k])
+			}
+			return iface{t: types.NewArray(elem, int64(len(src))), v: a}
+		}
+	}
+	const p = "go.opentelemetry.io/otel/internal/attribute."
+	stdIntrinsics[p+"StringSliceValue"] = mk(types.Typ[types.String])
+	stdIntrinsics[p+"BoolSliceValue"] = mk(types.Typ[types.Bool])
+	stdIntrinsics[p+"Int64SliceValue"] = mk(types.Typ[types.Int64])
+	stdIntrinsics[p+"Float64SliceValue"] = mk(types.Typ[types.Float64])
+	as := func(fr *frame, args []value) value {
+		itf := args[0].(iface)
+		a, ok := itf.v.(array)
+		if !ok {
+			return []value(nil)
+		}
+		out := make([]value, len(a))
+		copy(out, a)
+		return out
+	}
+	stdIntrinsics[p+"AsStringSlice"] = as
+	stdIntrinsics[p+"AsBoolSlice"] = as
+	stdIntrinsics[p+"AsInt64Slice"] = as
+	stdIntrinsics[p+"AsFloat64Slice"] = as
+}
+
+// regexp: compiled natively (pattern compilation/matching is never the subject);
+// the interpreted *regexp.Regexp is an empty shell keyed to the native object.
+func init() {
+	compile := func(fr *frame, expr value, must bool) value {
+		i := fr.i
+		e, ok := expr.(string)
+		if !ok {
+			panic(i.unsupported("regexp.Compile of symbolic pattern"))
+		}
+		re, err := regexp.Compile(e)
+		if err != nil {
+			if must {
+				panic(&targetPanic{v: iface{t: i.runtimeErrorString, v: "regexp: Compile: " + err.Error()}, site: fr.site()})
+			}
+			return tuple{(*value)(nil), i.newErrorString(err.Error())}
+		}
+		cell := zero(i.namedType("regexp", "Regexp"))
+		p := &cell
+		if i.natives == nil {
+			i.natives = map[*value]interface{}{}
+		}
+		i.natives[p] = re
+		i.noteStub("regexp compiled and matched natively on concrete strings")
+		if must {
+			return p
+		}
+		return tuple{p, iface{}}
+	}
+	stdIntrinsics["regexp.MustCompile"] = func(fr *frame, args []value) value { return compile(fr, args[0], true) }
+	stdIntrinsics["regexp.Compile"] = func(fr *frame, args []value) value { return compile(fr, args[0], false) }
+	stdIntrinsics["(*regexp.Regexp).MatchString"] = func(fr *frame, args []value) value {
+		re, _ := fr.i.natives[args[0].(*value)].(*regexp.Regexp)
+		s, ok := args[1].(string)
+		if re == nil || !ok {
+			panic(fr.i.unsupported("regexp match on symbolic string or unknown regexp"))
+		}
+		return re.MatchString(s)
+	}
+	stdIntrinsics["(*regexp.Regexp).String"] = func(fr *frame, args []value) value {
+		re, _ := fr.i.natives[args[0].(*value)].(*regexp.Regexp)
+		if re == nil {
+			return ""
+		}
+		return re.String()
 	}
 }
 
